@@ -41,7 +41,20 @@ func applyUnifiedDiff(repo, diff string) (map[string][]byte, error) {
 			src = strings.Split(string(b), "\n")
 		}
 		if newName == "/dev/null" {
-			return nil, fmt.Errorf("file deletion not supported (%s)", oldName)
+			// a deleted file: an overlay cannot remove a file, so it becomes an empty file of the same package (its build
+			// constraints go with its content)
+			pkg := "main"
+			for _, l := range src {
+				if strings.HasPrefix(l, "package ") {
+					pkg = strings.Fields(l)[1]
+					break
+				}
+			}
+			out[filepath.Join(repo, oldName)] = []byte("package " + pkg + "\n")
+			for i < len(lines) && !strings.HasPrefix(lines[i], "--- ") && !strings.HasPrefix(lines[i], "diff --git") {
+				i++
+			}
+			continue
 		}
 		offset := 0
 		for i < len(lines) && strings.HasPrefix(lines[i], "@@") {
